@@ -241,8 +241,31 @@ Qed.
 
 (** what the guards say about one rule set ([fx]: with fixes/C06-F4.diff a duplicate
     path in a rule is no longer a problem) *)
+Definition base_good (fx : fixes) (ds : list rdef) : bool :=
+  (fix_F4 fx || negb (f4_set ds)) && negb (dupid_set ds).
+
 Definition set_good (fx : fixes) (ds : list rdef) : bool :=
-  negb (f2_set ds) && (fix_F4 fx || negb (f4_set ds)) && negb (dupid_set ds).
+  negb (f2_set ds) && base_good fx ds.
+
+(** the sources that are not in the state C06-F1 / C06-F2 leave *)
+Definition clean (D : list nat) (s : nat) : bool := negb (existsb (Nat.eqb s) D).
+
+Lemma clean_nil s : clean [] s = true.
+Proof. reflexivity. Qed.
+
+Lemma clean_cons D t s : clean (t :: D) s = negb (Nat.eqb s t) && clean D s.
+Proof. unfold clean. simpl. rewrite negb_orb. reflexivity. Qed.
+
+Lemma clean_rm D t s : clean (rm_src t D) s = Nat.eqb s t || clean D s.
+Proof.
+  unfold clean, rm_src. induction D as [|u D IH]; simpl.
+  - rewrite orb_true_r. reflexivity.
+  - destruct (Nat.eqb u t) eqn:E; simpl.
+    + apply Nat.eqb_eq in E. subst u. rewrite IH. destruct (Nat.eqb s t); reflexivity.
+    + destruct (Nat.eqb s u) eqn:E2; simpl.
+      * apply Nat.eqb_eq in E2. subst u. rewrite E. reflexivity.
+      * exact IH.
+Qed.
 
 Lemma share_pat_sym a b : share_pat a b = share_pat b a.
 Proof.
